@@ -51,6 +51,16 @@ def name : Err → String
   | overflowError => "OverflowError" | zlibError => "zlib.error" | runtimeError => "RuntimeError"
   | cryptoInternal => "CryptoInternal" | need q => "NEED " ++ q
 
+def all : List Err :=
+  [decodeError, unsupportedKeyUse, unsupportedKeyAlgorithm, unsupportedKeyOperation, invalidKeyLength,
+   missingKeyType, invalidKeyType, invalidKeyId, invalidExchangeKey, invalidEncryptedKey, missingAlgorithm,
+   conflictAlgorithm, unsupportedAlgorithm, missingEncryption, badSignature, exceededSize,
+   invalidEncryptionAlgorithm, invalidCEKLength, invalidClaim, missingClaim, insecureClaim, expiredToken,
+   invalidToken, invalidPayload, valueError, typeError, keyError, attributeError, indexError, assertionError,
+   overflowError, zlibError, runtimeError, cryptoInternal]
+
+def ofName (s : String) : Option Err := all.find? (fun e => e.name == s)
+
 end Err
 
 instance {ε α} [DecidableEq ε] [DecidableEq α] : DecidableEq (Except ε α) := fun a b =>
